@@ -193,7 +193,32 @@ func (c *compiler) evalUserFunction(node *userFunction, args []ast.Expression) (
 		c.ctx.Set(p.Value, vals[i])
 	}
 
-	return c.evalBlockStatement(node.Block)
+	res, err := c.evalBlockStatement(node.Block)
+	if err != nil {
+		return nil, err
+	}
+
+	return functionValue(res), nil
+}
+
+// functionValue is what a call of a template function evaluates to: when the body rendered
+// nothing, the value of the return statement it reached (so that it can be compared, added,
+// tested and iterated like any other value); otherwise everything the body produced.
+func functionValue(res interface{}) interface{} {
+	cur, ok := res.(returnObject)
+	if !ok {
+		return res
+	}
+
+	for len(cur.Value) == 1 {
+		inner, ok := cur.Value[0].(returnObject)
+		if !ok {
+			return cur.Value[0]
+		}
+		cur = inner
+	}
+
+	return res
 }
 
 func (c *compiler) evalFunctionLiteral(node *ast.FunctionLiteral) (interface{}, error) {
